@@ -14,7 +14,8 @@ RULE = ('cases = pipelines prefix . observer . suffix: prefix of row-wise steps 
         'resources; distinct = distinct case digest'
         '; round 4: also dump_to_path(force_format=False) with unknown extensions at any position, prefixes that empty the first resource, and an inner join on the emptied resource behind every observer'
         '; round 7: stats added by steps behind the observer, strings with lone surrogates through stream/checkpoint, a suffix that takes two rows of each resource, runs aborted while rows flow'
-        '; round 8: fields that carry titles, dumped after another dumper of the same process wrote with use_titles=True')
+        '; round 8: fields that carry titles, dumped after another dumper of the same process wrote with use_titles=True'
+        "; round 9: packages without resources at the observer's position")
 TRUSTED = ['Coq 8.16.1 kernel + vm_compute', 'harness/p05.py oracle (reads back what the observer persisted)',
            'stamps the file dumpers are documented to write into the descriptor are whitelisted (path suffix, format, encoding, dialect, mediatype, profile, temporal format, decimalChar, groupChar, bareNumber, trueValues, falseValues, counters)']
 ASSUMES = ['none about later steps: a later step may stop reading a resource early (suffix take2); for the printer that case is the open finding C05.printer_silent_when_downstream_stops_early']
